@@ -49,7 +49,7 @@ def make_case(ctx, rng, weights=None, rules=None, snap_ballots=False, render=Fal
     hit = EXACT_HIT.get(opts['rule'])
     if opts['rule'] == 'wigm' and opts.get('arithmetic') == 'fixed' and opts.get('precision', 9) >= 1:
         hit = (opts['precision'], 'int' if opts.get('integer_quota') else 'eps')
-    if hit and rng.random() < 0.12 and 'G3' in weights:
+    if hit and rng.random() < (0.3 if opts['rule'].startswith('cfer') else 0.12) and 'G3' in weights:
         s = gen.g3b_exact_hit(rng, *hit)        # a transfer landing exactly on / beside the threshold
     if s is None:
         s = gen.pick(rng, weights, big)
